@@ -34,6 +34,8 @@ def positioning_info(c):
     rmap = {l_: f"r{k}" for k, l_ in enumerate([x for x in L.values() if x is not None] + [_layout(9)])} if mapped else {}
     rc = c.new(RegionCreator, _dfxp=None, _region_map=dict(rmap), _id_seed=7, _assigned_region_ids=set(["earlier"]))
     c.interp.contracts["pycaption.dfxp.base:_convert_layout_to_attributes"] = lambda interp, fn, a, kw: {"attrs of": N(fn, a, kw)["layout"]}
+    from pyvc.verify import require_callees
+    require_callees(c.interp.contracts)
     args = {"div": (None, None), "p": (cap, None), "span": (cap, node)}[asks]
     chain = {"div": ["language", "set"], "p": ["caption", "language", "set"], "span": ["node", "caption", "language", "set"]}[asks]
     eff = next((L[lvl] for lvl in chain if L[lvl] is not None), None)
